@@ -30,6 +30,21 @@ type hashState struct {
 	data Rope
 }
 
+type bufState struct{ b BytesV }
+
+type encState struct {
+	opts *StructV
+	w    Iface
+}
+
+func (e *Engine) bufOf(v Value) *bufState {
+	p, ok := v.(PtrV)
+	if !ok || p.isNil() {
+		e.goPanic("nil *bytes.Buffer")
+	}
+	return p.cell.val.(OpaqueV).data.(*bufState)
+}
+
 type asn1Sig struct {
 	r, s PtrV
 }
@@ -55,6 +70,8 @@ func init() {
 		"crypto/ed25519.Verify", "crypto/ed25519.NewKeyFromSeed", "(crypto/ed25519.PrivateKey).Sign",
 		"encoding/asn1.Unmarshal", "encoding/asn1.Marshal",
 		"(github.com/fxamacker/cbor/v2.EncOptions).EncMode", "(github.com/fxamacker/cbor/v2.DecOptions).DecMode",
+		"bytes.NewBuffer", "(*bytes.Buffer).Bytes", "(*bytes.Buffer).Write", "(*bytes.Buffer).Len", "(*bytes.Buffer).WriteByte",
+		"(*github.com/fxamacker/cbor/v2.Encoder).Encode",
 	} {
 		stubNames[n] = true
 	}
@@ -887,6 +904,32 @@ func (e *Engine) callStub(name string, recv Value, args []Value) Value {
 	case "(github.com/fxamacker/cbor/v2.DecOptions).DecMode":
 		opts := args[0].(*StructV)
 		return TupleV{Iface{typ: e.fake("decmode"), val: OpaqueV{kind: "decmode", data: opts}}, Iface{}}
+	// ---- bytes.Buffer / cbor.Encoder (streams over a caller-provided slice) ----------------------------------------
+	case "bytes.NewBuffer":
+		return PtrV{cell: e.newCell(OpaqueV{kind: "bytes.Buffer", data: &bufState{b: args[0].(BytesV)}}, "bytes.Buffer")}
+	case "(*bytes.Buffer).Bytes":
+		return e.bufOf(args[0]).b
+	case "(*bytes.Buffer).Len":
+		return e.bufOf(args[0]).b.n
+	case "(*bytes.Buffer).Write":
+		st := e.bufOf(args[0])
+		add := args[1].(BytesV)
+		st.b = e.appendOp(st.b, add).(BytesV) // appends in place while the capacity lasts, like the real Buffer
+		return TupleV{add.n, Iface{}}
+	case "(*bytes.Buffer).WriteByte":
+		st := e.bufOf(args[0])
+		st.b = e.appendOp(st.b, e.bytesFromRope(Rope{SegSym{args[1].(*Term)}})).(BytesV)
+		return Iface{}
+	case "gosym.encmode.NewEncoder":
+		return PtrV{cell: e.newCell(OpaqueV{kind: "cbor.Encoder", data: &encState{opts: recv.(OpaqueV).data.(*StructV), w: args[0].(Iface)}}, "cbor.Encoder")}
+	case "(*github.com/fxamacker/cbor/v2.Encoder).Encode":
+		st := args[0].(PtrV).cell.val.(OpaqueV).data.(*encState)
+		res := e.cborMarshal(st.opts, args[1].(Iface)).(TupleV)
+		if err := res[1].(Iface); err.typ != nil {
+			return err
+		}
+		wr := e.invokeByName(st.w, "Write", []Value{res[0]}).(TupleV)
+		return wr[1]
 	case "gosym.encmode.Marshal":
 		return e.cborMarshal(recv.(OpaqueV).data.(*StructV), args[0].(Iface))
 	case "gosym.decmode.Unmarshal":
@@ -1045,6 +1088,12 @@ func (e *Engine) ecdsaSignOK(priv PtrV, digest BytesV) (PtrV, PtrV, Iface) {
 	sw := e.envVar("ecdsa.s", w)
 	zw := tt.BVu(0, w)
 	e.addPC(tt.And(tt.Ne(rw, zw), tt.Ne(sw, zw), tt.Cmp("bvult", rw, Nw), tt.Cmp("bvult", sw, Nw)))
+	// counterexample models should need at most one leading zero byte in r and s (a native nonce search finds those)
+	full := (realCurve(cn).Params().N.BitLen() + 7) / 8
+	lowBound := tt.BV(new(big.Int).Lsh(big.NewInt(1), uint(8*(full-2))), w)
+	for _, nd := range e.nondets[len(e.nondets)-2:] {
+		nd.Prefer = append(nd.Prefer, tt.Cmp("bvule", lowBound, nd.Term))
+	}
 	r, s := tt.ZExt(rw, 528), tt.ZExt(sw, 528)
 	dig := e.bytesRope(digest)
 	keyID := e.ecPubID(pub)
